@@ -116,7 +116,7 @@ def run(ctx):
             ops = [rng.choice(OPS) for _ in range(rng.randint(1, 6))] + [("readline",), ("read", 3)]
             ch = gw.remote_exec("for x in channel.receive(): channel.send(x)")
             ch.send(items)
-            f = ch.makefile("r")
+            f = ch.makefile("r", proxyclose=rng.random() < 0.4)   # proxyclose only matters for close(): reading is the same
             res, exc = do_ops(f, ops)
             cases.append({"k": "read", "items": [[ord(c) for c in it] if isinstance(it, str) else list(it) for it in items],
                           "ops": [list(o) for o in ops], "results": res, "exc": exc})
@@ -188,6 +188,12 @@ def run(ctx):
             th.start()
             th.join(15)
             res, exc = box.get("r", ([], "Hang"))
+            if mode == "peer-drop" and not exc:
+                # reading a plain makefile('r') to its end does not close the channel: in "sendonly" state we can still send
+                try:
+                    ch.send(items[0])
+                except OSError:
+                    exc = "SendRefusedAfterReadingToEOF"
             cases.append({"k": "read", "items": [[ord(c) for c in it] if isinstance(it, str) else list(it) for it in items],
                           "ops": [list(o) for o in ops], "results": res, "exc": exc})
             metas.append({"binary": binary, "real_channel": True, "ended_by": mode})
